@@ -988,3 +988,9 @@ m('G7-register-second-registry-only-for-namespaces', 'C12', 'G7', 'PyTreeTypeReg
                                    registry_namespace);
     }
     cls.inc_ref();""")
+m('K2-constructor-dispatch-same-variant-on-both-branches', 'C02', 'K2', 'PyTreeSpec::MakeFromCollection=>MakeFromCollectionImpl', 'src/treespec/constructor.cpp',
+  """        return MakeFromCollectionImpl<NONE_IS_NODE>(object, registry_namespace);""",
+  """        return MakeFromCollectionImpl<NONE_IS_LEAF>(object, registry_namespace);""")
+m('K2-recursion-lambda-forgets-the-sort-mode', 'C02', 'K2', 'FlattenIntoImpl/DictShouldBeSorted', 'src/treespec/flatten.cpp',
+  """            found_custom |= FlattenIntoImpl<NoneIsLeaf, DictShouldBeSorted>(child,""",
+  """            found_custom |= FlattenIntoImpl<NoneIsLeaf, true>(child,""")
